@@ -18,6 +18,9 @@ type tval struct {
 	C []string
 	// place: address of the value when it is addressable (ref, slot)
 	Addr []string
+	// St: the state the value was read in when it differs from the current one (old(.)); deep
+	// spec-function parameters read the referenced rows in that state
+	St *State
 }
 
 type Env struct {
@@ -727,7 +730,9 @@ func (e *Env) evalCall(x ECall) (tval, error) {
 		}
 		ne := *e
 		ne.st = e.old
-		return ne.eval(x.Args[0])
+		v, err := ne.eval(x.Args[0])
+		v.St = e.old
+		return v, err
 	case "len", "cap":
 		v, err := e.eval(x.Args[0])
 		if err != nil {
@@ -786,6 +791,49 @@ func (e *Env) evalCall(x ECall) (tval, error) {
 			op = ">="
 		}
 		return tval{T: intT, C: []string{sIte(app(op, a.C[0], b.C[0]), a.C[0], b.C[0])}}, nil
+	case "fresh":
+		// fresh(x): the object x points to was allocated during the call (contract postconditions only)
+		v, err := e.eval(x.Args[0])
+		if err != nil {
+			return tval{}, err
+		}
+		if _, ok := refElem(v.T); !ok {
+			return tval{}, fmt.Errorf("fresh of a non-reference value")
+		}
+		if e.old == nil {
+			return tval{}, fmt.Errorf("fresh outside a postcondition")
+		}
+		return tval{T: boolT, C: []string{app(">=", v.C[0], e.old.brk)}}, nil
+	case "alloc":
+		// alloc(p): identity of the allocation a pointer/slice points into
+		v, err := e.eval(x.Args[0])
+		if err != nil {
+			return tval{}, err
+		}
+		if _, ok := refElem(v.T); !ok {
+			return tval{}, fmt.Errorf("alloc of a non-reference value")
+		}
+		return tval{T: intT, C: []string{v.C[0]}}, nil
+	case "iface":
+		// iface(x): the interface value MakeInterface would produce for x (pure term, usable under quantifiers)
+		v, err := e.eval(x.Args[0])
+		if err != nil {
+			return tval{}, err
+		}
+		if v.T == nil {
+			return tval{}, fmt.Errorf("iface of untyped value")
+		}
+		anyT := types.NewInterfaceType(nil, nil)
+		if _, isIface := v.T.Underlying().(*types.Interface); isIface {
+			return tval{T: anyT, C: v.C}, nil
+		}
+		tag := e.fr.eng.tagOf(v.T)
+		if !e.l().flatOK(v.T) {
+			return tval{}, fmt.Errorf("iface of a large value")
+		}
+		fn := fmt.Sprintf("box!%d", tag)
+		e.vc().declFun(fn, e.l().layout(v.T), SInt)
+		return tval{T: anyT, C: []string{sInt(int64(tag)), app(fn, v.C...)}}, nil
 	case "dynlen":
 		v, err := e.eval(x.Args[0])
 		if err != nil {
@@ -874,8 +922,12 @@ func (e *Env) applySpec(sf *SpecFunc, args []tval) (tval, error) {
 		// reference points into; passing the resolved row terms makes unchanged memory give equal terms
 		if i < len(sf.Params) && (strings.HasPrefix(sf.Params[i][1], "[]") || strings.HasPrefix(sf.Params[i][1], "*")) && a.T != nil {
 			if et, ok := refElem(a.T); ok && e.l().flatOK(et) {
+				st := e.st
+				if a.St != nil {
+					st = a.St
+				}
 				for _, srt := range uniqSorts(e.l().layout(et)) {
-					cs = append(cs, e.vc().rowOf(e.st, srt, a.C[0]))
+					cs = append(cs, e.vc().rowOf(st, srt, a.C[0]))
 					ss = append(ss, Sort("(Array Int "+string(srt)+")"))
 				}
 			}
